@@ -253,6 +253,24 @@ impl<'w> Run<'w> {
         }
     }
 
+    /// Populate neighbouring documents (namespaces below and above this one in byte order) in the same store:
+    /// range scans of this document must never see them, whatever endpoints a peer sends.
+    pub async fn add_neighbour_docs(&mut self) {
+        let w = self.w;
+        iroh_docs::verif::set_clock(1000);
+        for ns in w.other_ns.iter() {
+            let store = self.store.as_mut().unwrap();
+            store.import_namespace(Capability::Write(ns.clone())).unwrap();
+            let mut info = store.load_replica_info(&ns.id()).unwrap();
+            for (i, k) in [&b""[..], &[0u8][..], &[255u8, 255][..]].iter().enumerate() {
+                let se = w.signed_in(ns, 1 + (i as i64 % 2), k, 3, 1, 1);
+                let mut rep = iroh_docs::verif::replica(store, &mut info);
+                let _ = rep.insert_remote_entry(se, w.peers[0], ContentStatus::Missing).await;
+            }
+            store.close_replica(ns.id());
+        }
+    }
+
     fn drain(&mut self) -> Value {
         let w = self.w;
         let mut all = vec![];
@@ -485,6 +503,47 @@ pub const KEYS: &[&[u8]] = &[
     &[0, 0],
 ];
 
+thread_local! {
+    /// per-history extra keys (long / random / prefix-related), appended to KEYS by `key_at`
+    static EXTRA_KEYS: std::cell::RefCell<Vec<Vec<u8>>> = std::cell::RefCell::new(vec![]);
+}
+
+/// choose the per-history pool of extra keys: random byte strings up to 40 bytes and their prefixes / extensions
+pub fn reseed_extra_keys(r: &mut Rng, n: usize) {
+    let special: &[u8] = &[0, 1, 127, 128, 254, 255];
+    let mut v: Vec<Vec<u8>> = vec![];
+    for _ in 0..n {
+        let len = *r.pick(&[1usize, 2, 3, 8, 9, 31, 32, 33, 40]);
+        let k: Vec<u8> = (0..len).map(|_| if r.chance(1, 2) { *r.pick(special) } else { r.below(256) as u8 }).collect();
+        if k.len() > 1 {
+            v.push(k[..k.len() - 1].to_vec());
+        }
+        let mut ext = k.clone();
+        ext.push(*r.pick(special));
+        v.push(ext);
+        v.push(k);
+    }
+    EXTRA_KEYS.with(|e| *e.borrow_mut() = v);
+}
+
+/// key number i of the pool KEYS[..n_keys] ++ extra keys
+pub fn key_at(i: usize, n_keys: usize) -> Vec<u8> {
+    if i < n_keys {
+        KEYS[i].to_vec()
+    } else {
+        EXTRA_KEYS.with(|e| {
+            let e = e.borrow();
+            if e.is_empty() { KEYS[i % n_keys].to_vec() } else { e[(i - n_keys) % e.len()].clone() }
+        })
+    }
+}
+pub fn pool_len(n_keys: usize) -> usize {
+    n_keys + EXTRA_KEYS.with(|e| e.borrow().len())
+}
+pub fn pick_key(r: &mut Rng, n_keys: usize) -> Vec<u8> {
+    key_at(r.below(pool_len(n_keys)), n_keys)
+}
+
 pub const CLASSES: &[&str] = &[
     "badns_sig",
     "badauth_sig",
@@ -504,8 +563,8 @@ pub fn gen_endpoint(r: &mut Rng, g: &GenCfg) -> Value {
         0 => json!([-1, 0, []]),
         1 => json!([1, 99, [255]]),
         2 => json!([0, 0, []]),
-        3 => json!([0, 99, key_json(KEYS[r.below(g.n_keys)])]),
-        _ => json!([0, 1 + r.below(g.n_auth as usize), key_json(KEYS[r.below(g.n_keys)])]),
+        3 => json!([0, 99, key_json(&pick_key(r, g.n_keys))]),
+        _ => json!([0, 1 + r.below(g.n_auth as usize), key_json(&pick_key(r, g.n_keys))]),
     }
 }
 
@@ -523,7 +582,8 @@ pub struct GenCfg {
 
 pub fn gen_entry(r: &mut Rng, g: &GenCfg, now: u64) -> Value {
     let a = 1 + r.below(g.n_auth as usize) as i64;
-    let k = KEYS[r.below(g.n_keys)];
+    let k = pick_key(r, g.n_keys);
+    let k = &k[..];
     let ts = 1 + r.below(g.max_ts as usize) as u64;
     let h = *r.pick(&[-1i64, 0, 0, 1, 1, 2]);
     // content length is a function of the content hash (as for real content)
@@ -543,6 +603,9 @@ pub fn gen_entry(r: &mut Rng, g: &GenCfg, now: u64) -> Value {
 }
 
 pub fn gen_history(r: &mut Rng, g: &GenCfg) -> Vec<Value> {
+    // large histories also draw from a per-history pool of long / random / prefix-related keys
+    let extra = if g.n_keys >= 8 { 1 + r.below(3) } else { 0 };
+    reseed_extra_keys(r, extra);
     let mut ops = vec![];
     let mut now = 10u64;
     for _ in 0..g.len {
@@ -557,7 +620,7 @@ pub fn gen_history(r: &mut Rng, g: &GenCfg) -> Vec<Value> {
         } else if g.admin && x < 18 {
             let nf = r.below(3);
             let filters: Vec<Value> = (0..nf)
-                .map(|_| json!([if r.chance(1, 2) {"prefix"} else {"exact"}, key_json(KEYS[r.below(g.n_keys)])]))
+                .map(|_| json!([if r.chance(1, 2) {"prefix"} else {"exact"}, key_json(&pick_key(r, g.n_keys))]))
                 .collect();
             json!({"op":"policy","kind": if r.chance(1,2) {"only"} else {"except"},"filters":filters})
         } else if g.admin && x < 20 {
@@ -570,16 +633,16 @@ pub fn gen_history(r: &mut Rng, g: &GenCfg) -> Vec<Value> {
             json!({"op":"news","heads":hs})
         } else if x < 40 {
             let a = 1 + r.below(g.n_auth as usize) as i64;
-            let k = KEYS[r.below(g.n_keys)];
+            let k = pick_key(r, g.n_keys);
             // local inserts use the clock as timestamp; move the clock around (skew) within max_ts
             let t = 1 + r.below(g.max_ts as usize) as u64;
             let h = *r.pick(&[-1i64, 1, 2]);
-            json!({"op":"local","a":a,"k":key_json(k),"h":h,"now":t})
+            json!({"op":"local","a":a,"k":key_json(&k),"h":h,"now":t})
         } else if x < 50 {
             let a = 1 + r.below(g.n_auth as usize) as i64;
-            let k = KEYS[r.below(g.n_keys)];
+            let k = pick_key(r, g.n_keys);
             let t = 1 + r.below(g.max_ts as usize) as u64;
-            json!({"op":"delete","a":a,"k":key_json(k),"now":t})
+            json!({"op":"delete","a":a,"k":key_json(&k),"now":t})
         } else if g.ranges && x < 75 {
             // primitive sweep (C08): fingerprint parts with an impossible / the empty fingerprint and item
             // parts that request our entries, over arbitrary ranges (x<y, x>y, x=y; foreign endpoints)
@@ -631,6 +694,7 @@ pub fn gen_history(r: &mut Rng, g: &GenCfg) -> Vec<Value> {
 pub fn run_histories(
     w: &World,
     seed: u64,
+    neighbours: bool,
     histories: &[(Vec<Value>, bool)],
     dir: &Path,
     trace: &mut Trace,
@@ -650,6 +714,9 @@ pub fn run_histories(
         };
         let bname = backend.name();
         let mut run = Run::new(w, backend);
+        if neighbours {
+            rt.block_on(run.add_neighbour_docs());
+        }
         trace.emit(json!({"ev":"Reset","run":i,"backend":bname,"seed":seed,"ops":ops}));
         sum.add("histories", 1);
         for op in ops {
